@@ -265,6 +265,50 @@ func corrC16(c *corrCtx) {
 			}
 		}
 	}
+	// realistic headers: the signature fields hold values the specification and real profiles use; each
+	// as it is, with every single bit flipped, and with each byte replaced by NUL / space / 0xff
+	sigs := []string{"XYZ ", "Lab ", "Luv ", "YCbr", "Yxy ", "RGB ", "GRAY", "HSV ", "HLS ", "CMYK", "CMY ", "2CLR", "FCLR",
+		"scnr", "mntr", "prtr", "link", "spac", "abst", "nmcl", "APPL", "MSFT", "SGI ", "SUNW", "appl", "ADBE", "lcms", "acsp", "\x00\x00\x00\x00"}
+	sigFields := []int{4, 12, 16, 20, 40, 48, 52, 80}
+	for _, sg := range sigs {
+		for fi, off := range sigFields {
+			if !c.thorough() && off != 16 && off != 20 && (len(sg)+fi)%3 != 0 {
+				continue
+			}
+			h := iccHeader(r)
+			copy(h[off:off+4], sg)
+			emit("sig", h[:])
+			for b := 0; b < 4; b++ {
+				for _, v := range []byte{0x00, 0x20, 0xff} {
+					g := h
+					g[off+b] = v
+					emit("sig-byte", g[:])
+				}
+				if c.thorough() || off == 16 || off == 20 {
+					for bit := 0; bit < 8; bit++ {
+						g := h
+						g[off+b] ^= 1 << uint(bit)
+						emit("sig-bit", g[:])
+					}
+				}
+			}
+		}
+	}
+	// the headers of the profiles shipped with the repository, every single-bit flip of their first 128 bytes
+	for pi, prof := range realProfiles() {
+		if len(prof) < 128 {
+			continue
+		}
+		emit("real", prof[:128])
+		for bit := 0; bit < 1024; bit++ {
+			if !c.thorough() && (bit+pi)%4 != 0 && !(bit >= 96 && bit < 192) {
+				continue
+			}
+			g := append([]byte{}, prof[:128]...)
+			g[bit/8] ^= 0x80 >> uint(bit%8)
+			emit("real-bit", g)
+		}
+	}
 	n := 300
 	if c.thorough() {
 		n = 20000
